@@ -197,6 +197,12 @@ Definition combine_missing (n : nat) (ms : list (option (list bool))) : option (
   then Some (fold_left (fun acc m => match m with Some l => orb_list acc l | None => acc end) ms (repeat false n))
   else None.
 Definition no_prop : prop := {| p_vals := PS []; p_miss := None |}.
+(* col_arrays = [props[c]["values"] for c in source_cols]; combined = np.column_stack(col_arrays);
+   missing_arrays = [props[c].get("missing") for c in source_cols]; ... *)
+Definition comb_of (ps : props) (cs : list Z) : prop :=
+  let srcs := map (fun c => getd c ps no_prop) cs in
+  let stacked := column_stack (map p_vals srcs) in
+  {| p_vals := stacked; p_miss := combine_missing (length (rows_of stacked)) (map p_miss srcs) |}.
 (* one iteration of  for std_key, source_cols in name_map.items()  *)
 Definition combine_entry (ps : props) (kv : Z * src) : props :=
   match snd kv with
@@ -204,14 +210,11 @@ Definition combine_entry (ps : props) (kv : Z * src) : props :=
   | Multi [] => ps
   | Multi cs =>
     if forallb (fun c => haskey c ps) cs then
-      let srcs := map (fun c => getd c ps no_prop) cs in
-      let stacked := column_stack (map p_vals srcs) in
-      let comb := {| p_vals := stacked; p_miss := combine_missing (length (rows_of stacked)) (map p_miss srcs) |} in
       (* props[std_key] = {...};  for c in source_cols: if c in props and c != std_key: del props[c] *)
-      fold_left (fun acc c => if c =? fst kv then acc else del c acc) cs (set (fst kv) comb ps)
+      fold_left (fun acc c => if c =? fst kv then acc else del c acc) cs (set (fst kv) (comb_of ps cs) ps)
     else ps   (* if missing_cols: continue *)
   end.
-Definition combine (nm : name_map) (ps : props) : props := fold_left combine_entry nm ps.
+Definition combine_multi (nm : name_map) (ps : props) : props := fold_left combine_entry nm ps.
 
 (* ---------- validate(): validate_spatial_dims + validate_in_memory_geff ---------- *)
 (* actual_dims = values.shape[1] if values.ndim == 2 else 1  must equal ndim - 1 for spatial features *)
@@ -323,7 +326,7 @@ Definition import_csv (t : table) (ityp trk_ok lin_ok : bool) (nm0 : name_map) :
       match ints_of idc with
       | Some ids =>
         match edge_tuples parc ids with
-        | Some es => finish ndim trk_ok lin_ok ids es (combine nm (del k_parent (del k_id df)))
+        | Some es => finish ndim trk_ok lin_ok ids es (combine_multi nm (del k_parent (del k_id df)))
         | None => ValueErr
         end
       | None => ValueErr
@@ -356,7 +359,7 @@ Definition import_geff (ids : list Z) (es : list (Z * Z)) (store : props) (trk_o
     match ndims with
     | Ok nd =>
       let ndim := match ndim0 with Some n => Some n | None => Some nd end in
-      finish ndim trk_ok lin_ok ids es (combine nm ps0)
+      finish ndim trk_ok lin_ok ids es (combine_multi nm ps0)
     | ValueErr => ValueErr
     | OtherErr c => OtherErr c
     end
